@@ -51,6 +51,8 @@ theorem ringSpec_ser (pts : Array Pt) (kind : IndexKind) (m : Nat)
   inRect := by
     intro p hp
     by_contra hc
+    have hr : (Ring.ser (mkSeries pts true kind m)).rect = (processPoints pts true).rect := rfl
+    rw [hr] at hc
     have hc' : (processPoints pts true).rect.containsPt p = false := by
       simpa using hc
     obtain ⟨h1, h2⟩ := outside_rect pts p hc'
@@ -61,8 +63,10 @@ theorem ringSpec_ser (pts : Array Pt) (kind : IndexKind) (m : Nat)
     intro he
     have hne : ¬ ((true && decide (pts.size < 3)) || decide (pts.size < 2)) = true := by
       have : (mkSeries pts true kind m).empty = false := he
-      unfold Series.empty at this
-      simpa using this
+      intro hh
+      have h2 : (mkSeries pts true kind m).empty = true := hh
+      rw [h2] at this
+      cases this
     obtain ⟨-, ⟨v1, m1, e1⟩, ⟨v2, m2, e2⟩, ⟨v3, m3, e3⟩, ⟨v4, m4, e4⟩⟩ :=
       bboxSpec_tight pts.toList _ (rect_tight pts true hne).symm
     exact ⟨⟨v1, ser_vertex_onBoundary pts kind m he v1 m1, e1⟩,
@@ -98,6 +102,16 @@ theorem crosses_eq_inn {a b p : Pt} (h : Spec.onSeg a b p = false) :
   rw [Bool.eq_iff_iff, spec_crosses_iff]
   exact (raycast_in_iff _ _ _ hns).symm
 
+theorem parity4 (a0 b0 a1 b1 a2 b2 a3 b3 : Pt) (p : Pt) (c0 c1 c2 c3 : Bool)
+    (h0 : Spec.crosses a0 b0 p = c0) (h1 : Spec.crosses a1 b1 p = c1)
+    (h2 : Spec.crosses a2 b2 p = c2) (h3 : Spec.crosses a3 b3 p = c3) :
+    Spec.parity [(a0, b0), (a1, b1), (a2, b2), (a3, b3)] p = (b2n c0 + b2n c1 + b2n c2 + b2n c3) % 2 := by
+  subst h0 h1 h2 h3
+  unfold Spec.parity
+  simp only [List.filter_cons, List.filter_nil]
+  cases Spec.crosses a0 b0 p <;> cases Spec.crosses a1 b1 p <;>
+    cases Spec.crosses a2 b2 p <;> cases Spec.crosses a3 b3 p <;> rfl
+
 /-- the crossing-parity region of the rectangle chain is the closed rectangle -/
 theorem inRing_rect (b : Box) (hb : b.min.x ≤ b.max.x ∧ b.min.y ≤ b.max.y) (p : Pt) :
     Spec.inRing (Spec.edges (Spec.rectPts b.min b.max) true) p = b.containsPt p := by
@@ -126,10 +140,10 @@ theorem inRing_rect (b : Box) (hb : b.min.x ≤ b.max.x ∧ b.min.y ≤ b.max.y)
     have hoffs := hon'
     unfold Spec.onBoundary at hoffs
     rw [rect_edges_bx, List.any_eq_false] at hoffs
-    have o0 : Spec.onSeg (b.segmentAt 0).a (b.segmentAt 0).b p = false := by simpa using hoffs _ (by simp)
-    have o1 : Spec.onSeg (b.segmentAt 1).a (b.segmentAt 1).b p = false := by simpa using hoffs _ (by simp)
-    have o2 : Spec.onSeg (b.segmentAt 2).a (b.segmentAt 2).b p = false := by simpa using hoffs _ (by simp)
-    have o3 : Spec.onSeg (b.segmentAt 3).a (b.segmentAt 3).b p = false := by simpa using hoffs _ (by simp)
+    have o0 : Spec.onSeg (b.segmentAt 0).a (b.segmentAt 0).b p = false := by simpa using hoffs ((b.segmentAt 0).a, (b.segmentAt 0).b) (by simp)
+    have o1 : Spec.onSeg (b.segmentAt 1).a (b.segmentAt 1).b p = false := by simpa using hoffs ((b.segmentAt 1).a, (b.segmentAt 1).b) (by simp)
+    have o2 : Spec.onSeg (b.segmentAt 2).a (b.segmentAt 2).b p = false := by simpa using hoffs ((b.segmentAt 2).a, (b.segmentAt 2).b) (by simp)
+    have o3 : Spec.onSeg (b.segmentAt 3).a (b.segmentAt 3).b p = false := by simpa using hoffs ((b.segmentAt 3).a, (b.segmentAt 3).b) (by simp)
     unfold Spec.inRing
     rw [hon', Bool.false_or]
     by_cases hc : b.containsPt p = true
@@ -139,11 +153,9 @@ theorem inRing_rect (b : Box) (hb : b.min.x ≤ b.max.x ∧ b.min.y ≤ b.max.y)
         rfl
       obtain ⟨i0, i1, i2, i3⟩ := bx_inn b p hc hany
       unfold innAt Seg.raycast at i0 i1 i2 i3
-      rw [hc]
-      unfold Spec.parity
-      rw [rect_edges_bx]
-      simp [List.filter, crosses_eq_inn o0, crosses_eq_inn o1, crosses_eq_inn o2, crosses_eq_inn o3,
-        i0, i1, i2, i3]
+      rw [hc, rect_edges_bx, parity4 _ _ _ _ _ _ _ _ p _ _ _ _ ((crosses_eq_inn o0).trans i0)
+        ((crosses_eq_inn o1).trans i1) ((crosses_eq_inn o2).trans i2) ((crosses_eq_inn o3).trans i3)]
+      rfl
     · -- outside the box: an even number of crossings
       have hc' : b.containsPt p = false := by simpa using hc
       rw [hc']
@@ -160,19 +172,27 @@ theorem inRing_rect (b : Box) (hb : b.min.x ≤ b.max.x ∧ b.min.y ≤ b.max.y)
       have c2 := crosses_outside b.max ⟨b.min.x, b.max.y⟩ p b hmax h3
       have c3 := crosses_outside ⟨b.min.x, b.max.y⟩ b.min p b h3 hmin
       have hout : p.x < b.min.x ∨ b.max.x < p.x ∨ p.y < b.min.y ∨ b.max.y < p.y := by
-        unfold Box.containsPt at hc'
-        simp only [Bool.and_eq_false_iff, decide_eq_false_iff_not, ge_iff_le, not_le] at hc'
-        tauto
-      unfold Spec.parity
-      rw [rect_edges]
+        by_contra hcon
+        simp only [not_or, not_lt] at hcon
+        have := (containsPt_iff b p).2 ⟨hcon.1, hcon.2.1, hcon.2.2.1, hcon.2.2.2⟩
+        rw [hc'] at this
+        cases this
       rcases hout with h | h | h | h
-      · simp only [List.filter, c0.1 h, c1.1 h, c2.1 h, c3.1 h]
+      · have e0 : Spec.crosses b.min ⟨b.max.x, b.min.y⟩ p =
+            (decide (b.min.y ≤ p.y) != decide (b.min.y ≤ p.y)) := c0.1 h
+        have e1 : Spec.crosses ⟨b.max.x, b.min.y⟩ b.max p =
+            (decide (b.min.y ≤ p.y) != decide (b.max.y ≤ p.y)) := c1.1 h
+        have e2 : Spec.crosses b.max ⟨b.min.x, b.max.y⟩ p =
+            (decide (b.max.y ≤ p.y) != decide (b.max.y ≤ p.y)) := c2.1 h
+        have e3 : Spec.crosses ⟨b.min.x, b.max.y⟩ b.min p =
+            (decide (b.max.y ≤ p.y) != decide (b.min.y ≤ p.y)) := c3.1 h
+        rw [rect_edges, parity4 _ _ _ _ _ _ _ _ p _ _ _ _ e0 e1 e2 e3]
         cases decide (b.min.y ≤ p.y) <;> cases decide (b.max.y ≤ p.y) <;> rfl
-      · simp only [List.filter, c0.2.1 h, c1.2.1 h, c2.2.1 h, c3.2.1 h]
+      · rw [rect_edges, parity4 _ _ _ _ _ _ _ _ p _ _ _ _ (c0.2.1 h) (c1.2.1 h) (c2.2.1 h) (c3.2.1 h)]
         rfl
-      · simp only [List.filter, c0.2.2.1 h, c1.2.2.1 h, c2.2.2.1 h, c3.2.2.1 h]
+      · rw [rect_edges, parity4 _ _ _ _ _ _ _ _ p _ _ _ _ (c0.2.2.1 h) (c1.2.2.1 h) (c2.2.2.1 h) (c3.2.2.1 h)]
         rfl
-      · simp only [List.filter, c0.2.2.2 h, c1.2.2.2 h, c2.2.2.2 h, c3.2.2.2 h]
+      · rw [rect_edges, parity4 _ _ _ _ _ _ _ _ p _ _ _ _ (c0.2.2.2 h) (c1.2.2.2 h) (c2.2.2.2 h) (c3.2.2.2 h)]
         rfl
 
 theorem ringSpec_bx (b : Box) (hb : b.min.x ≤ b.max.x ∧ b.min.y ≤ b.max.y) :
